@@ -523,5 +523,6 @@ pub fn run(ctx: &Ctx) -> i32 {
     if !ctx.quick() && std::env::var("VERIF_NO_MIRI").is_err() {
         crate::c02::miri_tier(&mut report, "c17", 16, 200, ctx.seed);
     }
+    crate::also_in_release_build(&mut report, "C17", ctx);
     report.finish()
 }
